@@ -32,8 +32,10 @@ CONSTANT Deviations
 
 Trace == ndJsonDeserialize(IOEnv.TRACE)
 
-VARIABLES l, st, hist, rws, dev, nskip, nimg
-vars == <<l, st, hist, rws, dev, nskip, nimg>>
+Findings == {"PersistJSONTypes", "AofReplayClock", "RewriteNotAtomic"}
+
+VARIABLES l, st, hist, rws, dev, nskip, nimg, wpc, sync
+vars == <<l, st, hist, rws, dev, nskip, nimg, wpc, sync>>
 
 \* hist[p + 1] = [S, cmd, db, logged] after p commands; rws = positions (acked counts) and times of rewrites
 
@@ -50,44 +52,51 @@ JVal(v) == CASE v.k = "int"  -> VFlt(4 * v.n)
 Checkpoint(S, t, lossy) ==      \* expired keys are not persisted
     LET N == Norm(S, t) IN [x \in DOMAIN N |-> Ent(IF lossy THEN JVal(N[x].v) ELSE N[x].v, N[x].d)]
 
-RECURSIVE Replay(_, _, _)
-Replay(S, cmds, t) ==           \* cmds: sequence of [cmd, db]
+\* cmds: sequence of [cmd, db, now]; orig = TRUE replays every command at the instant it was
+\* originally executed (what a faithful log would do), FALSE at the restore instant t (the code)
+RECURSIVE Replay(_, _, _, _)
+Replay(S, cmds, t, orig) ==
     IF cmds = <<>> THEN [S |-> S, ok |-> TRUE]
-    ELSE LET o == Exec([S |-> S, now |-> t, db |-> cmds[1].db, D |-> Deviations], cmds[1].cmd, RNil) IN
+    ELSE LET o == Exec([S |-> S, now |-> IF orig THEN cmds[1].now ELSE t, db |-> cmds[1].db, D |-> Deviations],
+                       cmds[1].cmd, RNil) IN
          IF o.rel # "eq" THEN [S |-> S, ok |-> FALSE]
-         ELSE Replay(o.S, Tail(cmds), t)
+         ELSE Replay(o.S, Tail(cmds), t, orig)
 
 \* logged commands among positions (a, b]
 LoggedIn(a, b) == LET idx == {p \in (a + 1)..b : hist[p + 1].logged}
                       F[i \in 0..b] == IF i <= a THEN <<>>
-                                       ELSE IF i \in idx THEN Append(F[i - 1], [cmd |-> hist[i + 1].cmd, db |-> hist[i + 1].db])
+                                       ELSE IF i \in idx THEN Append(F[i - 1], [cmd |-> hist[i + 1].cmd, db |-> hist[i + 1].db, now |-> hist[i + 1].now])
                                        ELSE F[i - 1]
                   IN F[b]
 
 Take(s, n) == SubSeq(s, 1, IF n < Len(s) THEN n ELSE Len(s))
 
-\* rewrites completed strictly before the image (the one in progress excluded)
-DoneRws(e) == {i \in 1..Len(rws) : rws[i].at <= e.acked /\ ~(e.inrw /\ rws[i].at = e.rwbegin /\ i = Len(SelectSeq(rws, LAMBDA r : r.at <= e.acked)))}
-LastDone(e) == IF DoneRws(e) = {} THEN 0 ELSE CHOOSE i \in DoneRws(e) : \A j \in DoneRws(e) : j <= i
-CurRw(e)    == CHOOSE i \in 1..Len(rws) : rws[i].at = e.rwbegin /\ ~(i \in DoneRws(e))
+\* e.rwn = number of rewrites begun when the image was taken (the one in progress included);
+\* rws[i] = [at, now] of the i-th rewrite
+LastDone(e) == IF e.inrw THEN e.rwn - 1 ELSE e.rwn
+CurRw(e)    == e.rwn
 
-AfterPreWrite == {"aof.pre.write", "aof.pre.sync", "aof.log.truncate", "aof.log.select", "aof.log.sync"}
-AfterLogTrunc == {"aof.log.truncate", "aof.log.select", "aof.log.sync"}
+AfterPreWrite == {"aof.pre.write", "aof.pre.sync", "aof.log.truncate", "aof.log.select", "aof.log.sync", "rw.done"}
+AfterLogTrunc == {"aof.log.truncate", "aof.log.select", "aof.log.sync", "rw.done"}
 
 \* content of the preamble file at the instant of the image
 PreAt(e, lossy) ==
     IF e.pre = "empty" THEN EmptyStore
-    ELSE IF e.inrw /\ e.at \in AfterPreWrite
+    ELSE IF e.inrw /\ e.rwstage \in AfterPreWrite
          THEN Checkpoint(hist[e.rwbegin + 1].S, rws[CurRw(e)].now, lossy)
          ELSE LET i == LastDone(e) IN
               IF i = 0 THEN EmptyStore ELSE Checkpoint(hist[rws[i].at + 1].S, rws[i].now, lossy)
 
 \* position after which the records of the log file of the image were written
-LogBase(e) == IF e.inrw /\ e.at \in AfterLogTrunc THEN e.rwbegin
-              ELSE LET i == LastDone(e) IN IF i = 0 THEN 0 ELSE rws[i].at
+\* (a rewrite truncates the log after `trunc` acknowledged commands; commands acknowledged between
+\* its state copy - `at` - and that moment were logged only in the old log and are gone)
+LogBase(e) == IF e.inrw /\ e.rwstage \in AfterLogTrunc THEN e.acked
+              ELSE LET i == LastDone(e) IN IF i = 0 THEN 0 ELSE rws[i].trunc
 
-Faithful(e, lossy) ==
-    Replay(Checkpoint(PreAt(e, lossy), e.now, FALSE), Take(LoggedIn(LogBase(e), e.exec), e.recs), e.now)
+LostWrites(e) == LET i == LastDone(e) IN i > 0 /\ rws[i].trunc > rws[i].at
+
+Faithful(e, lossy, orig) ==
+    Replay(Checkpoint(PreAt(e, lossy), e.now, FALSE), Take(LoggedIn(LogBase(e), e.exec), e.recs), e.now, orig)
 
 Lo(e) == IF e.powerloss /\ e.sync # "always" THEN 0 ELSE e.acked
 
@@ -115,14 +124,15 @@ WriteOps == {"SET", "MSET", "DEL", "PERSIST", "EXPIRE", "PEXPIRE", "EXPIREAT", "
              "ZREMRANGEBYRANK", "ZREMRANGEBYLEX", "ZDIFFSTORE", "ZINTERSTORE", "ZUNIONSTORE", "ZRANGESTORE"}
 LoggedOK(e) == e.logged <=> (e.cmd[1].s \in WriteOps /\ e.r.t # "err")
 
-Init == l = 1 /\ st = EmptyStore /\ hist = <<>> /\ rws = <<>> /\ nskip = 0 /\ nimg = 0
-        /\ dev = [n \in Deviations \cup {"PersistJSONTypes", "RewriteNotAtomic"} |-> 0]
+Init == l = 1 /\ st = EmptyStore /\ hist = <<>> /\ rws = <<>> /\ nskip = 0 /\ nimg = 0 /\ wpc = <<"idle", "idle">> /\ sync = "always"
+        /\ dev = [n \in Deviations \cup Findings |-> 0]
 
 TraceReset ==
     /\ l <= Len(Trace) /\ Trace[l].ev = "reset"
     /\ st' = ProjStore(Trace[l].st)
-    /\ hist' = <<[S |-> ProjStore(Trace[l].st), cmd |-> <<>>, db |-> "0", logged |-> FALSE]>>
+    /\ hist' = <<[S |-> ProjStore(Trace[l].st), cmd |-> <<>>, db |-> "0", logged |-> FALSE, now |-> Trace[l].now]>>
     /\ rws' = <<>>
+    /\ wpc' = <<"idle", "idle">> /\ sync' = Trace[l].cfg.sync
     /\ l' = l + 1 /\ UNCHANGED <<dev, nskip, nimg>>
 
 TraceCmd ==
@@ -132,42 +142,79 @@ TraceCmd ==
        /\ LoggedOK(e)
        /\ nskip' = IF Outcome(e, {}).rel = "skip" THEN nskip + 1 ELSE nskip
        /\ st' = ProjStore(e.st)
-       /\ hist' = Append(hist, [S |-> ProjStore(e.st), cmd |-> e.cmd, db |-> e.db, logged |-> e.logged])
-    /\ l' = l + 1 /\ UNCHANGED <<dev, rws, nimg>>
+       /\ hist' = Append(hist, [S |-> ProjStore(e.st), cmd |-> e.cmd, db |-> e.db, logged |-> e.logged, now |-> e.now])
+    /\ l' = l + 1 /\ UNCHANGED <<dev, rws, nimg, wpc, sync>>
 
 TraceRewrite ==
     /\ l <= Len(Trace) /\ Trace[l].ev = "rewrite"
     /\ ~("err" \in DOMAIN Trace[l])
-    /\ rws' = Append(rws, [at |-> Trace[l].acked, now |-> Trace[l].now])
-    /\ l' = l + 1 /\ UNCHANGED <<st, hist, dev, nskip, nimg>>
+    /\ rws' = Append(rws, [at |-> Trace[l].acked, trunc |-> Trace[l].trunc, now |-> Trace[l].now])
+    /\ l' = l + 1 /\ UNCHANGED <<st, hist, dev, nskip, nimg, wpc, sync>>
 
-\* file-operation events and end markers carry no obligation here
+\* File-operation events: the order of the instrumented operations of one run must be a run of
+\* the writer / rewrite step programs (the action structure of spec/Persist.tla):
+\*   command:  cmd.handled [ [aof.log.select] aof.log.write [aof.log.sync] cmd.logged ]
+\*   rewrite:  aof.pre.copied aof.pre.truncate aof.pre.write aof.pre.sync
+\*             aof.log.truncate [aof.log.select] aof.log.sync rw.done
+\* Under "always" the sync between write and cmd.logged is mandatory; under "everysec" sync
+\* events of the background ticker may appear anywhere.
+\* pc = <<writer pc, rewrite pc>>: a client's command may run inside the rewrite window
+FopStep(pc, op, sy) ==
+    LET w == pc[1]   r == pc[2] IN
+    CASE op = "cmd.handled"      /\ w \in {"idle", "handled"}             -> <<"handled", r>>
+      [] op = "aof.log.select"   /\ w = "handled"                         -> <<"selected", r>>
+      [] op = "aof.log.write"    /\ w \in {"handled", "selected"}         -> <<"written", r>>
+      [] op = "aof.log.sync"     /\ w = "written" /\ sy = "always"        -> <<"synced", r>>
+      [] op = "cmd.logged"       /\ w = (IF sy = "always" THEN "synced" ELSE "written") -> <<"idle", r>>
+      [] op = "aof.pre.copied"   /\ r = "idle" /\ w \in {"idle", "handled"} -> <<"idle", "rw1">>
+      [] op = "aof.pre.truncate" /\ r = "rw1"                             -> <<w, "rw2">>
+      [] op = "aof.pre.write"    /\ r = "rw2"                             -> <<w, "rw3">>
+      [] op = "aof.pre.sync"     /\ r = "rw3" /\ w \in {"idle", "handled"} -> <<"idle", "rw4">>
+      [] op = "aof.log.truncate" /\ r = "rw4"                             -> <<w, "rw5">>
+      [] op = "aof.log.select"   /\ r = "rw5"                             -> <<w, "rw5s">>
+      [] op = "aof.log.sync"     /\ r \in {"rw5", "rw5s"}                 -> <<w, "rw6">>
+      [] op = "rw.done"          /\ r = "rw6"                             -> <<w, "idle">>
+      [] op = "aof.log.sync"     /\ sy = "everysec"                       -> pc
+      [] op = "end.running"      /\ w \in {"idle", "handled"} /\ r = "idle" -> <<"idle", "idle">>
+      [] OTHER -> <<"bad", "bad">>
+
+TraceFop ==
+    /\ l <= Len(Trace) /\ Trace[l].ev = "fop"
+    /\ wpc' = FopStep(wpc, Trace[l].op, sync)
+    /\ wpc'[1] # "bad"
+    /\ l' = l + 1 /\ UNCHANGED <<st, hist, rws, dev, nskip, nimg, sync>>
+
 TraceOther ==
-    /\ l <= Len(Trace) /\ Trace[l].ev \in {"fop", "endrun"}
-    /\ l' = l + 1 /\ UNCHANGED <<st, hist, rws, dev, nskip, nimg>>
+    /\ l <= Len(Trace) /\ Trace[l].ev = "endrun"
+    /\ l' = l + 1 /\ UNCHANGED <<st, hist, rws, dev, nskip, nimg, wpc, sync>>
 
+\* result: set of finding names that explain the image ({} = the property holds), or {"violation"}, or {"skip"}
 ImageVerdict(e) ==
     LET got  == Got(e)
-        f    == Faithful(e, TRUE)
-        fNoJ == Faithful(e, FALSE)
-    IN IF "err" \in DOMAIN e THEN "violation"
-       ELSE IF ~f.ok THEN "skip"
-       ELSE IF got # Norm(f.S, e.now) THEN "violation"                       \* conformance
-       ELSE IF PrefixOK(e, got) THEN "ok"                                    \* the property
-       ELSE IF fNoJ.ok /\ PrefixOK(e, Norm(fNoJ.S, e.now)) /\ "PersistJSONTypes" \in Deviations THEN "PersistJSONTypes"
-       ELSE IF e.inrw /\ "RewriteNotAtomic" \in Deviations THEN "RewriteNotAtomic"
-       ELSE "violation"
+        f    == Faithful(e, TRUE, FALSE)                    \* what the code does: lossy checkpoints, replay at restore time
+        ok(x) == x.ok /\ PrefixOK(e, Norm(x.S, e.now))
+        has(n) == n \in Deviations
+    IN IF "err" \in DOMAIN e THEN {"violation"}
+       ELSE IF ~f.ok THEN {"skip"}
+       ELSE IF got # Norm(f.S, e.now) THEN {"violation"}                     \* conformance
+       ELSE IF PrefixOK(e, got) THEN {}                                      \* the property
+       ELSE IF has("PersistJSONTypes") /\ ok(Faithful(e, FALSE, FALSE)) THEN {"PersistJSONTypes"}
+       ELSE IF has("AofReplayClock") /\ ok(Faithful(e, TRUE, TRUE)) THEN {"AofReplayClock"}
+       ELSE IF has("PersistJSONTypes") /\ has("AofReplayClock") /\ ok(Faithful(e, FALSE, TRUE))
+            THEN {"PersistJSONTypes", "AofReplayClock"}
+       ELSE IF (e.inrw \/ LostWrites(e)) /\ has("RewriteNotAtomic") THEN {"RewriteNotAtomic"}
+       ELSE {"violation"}
 
 TraceImage ==
     /\ l <= Len(Trace) /\ Trace[l].ev = "image"
     /\ LET e == Trace[l]   v == ImageVerdict(e) IN
-       /\ v # "violation"
-       /\ nskip' = IF v = "skip" THEN nskip + 1 ELSE nskip
-       /\ dev' = IF v \in {"PersistJSONTypes", "RewriteNotAtomic"} THEN [dev EXCEPT ![v] = @ + 1] ELSE dev
-       /\ IF v \in {"PersistJSONTypes", "RewriteNotAtomic"} /\ dev[v] = 0
-          THEN PrintT(<<"DEVIATION", l, {v}, e.at, e.acked, e.exec, e.cut>>) ELSE TRUE
+       /\ v # {"violation"}
+       /\ nskip' = IF v = {"skip"} THEN nskip + 1 ELSE nskip
+       /\ dev' = [n \in DOMAIN dev |-> IF n \in v THEN dev[n] + 1 ELSE dev[n]]
+       /\ IF \E n \in v \cap Findings : dev[n] = 0
+          THEN PrintT(<<"DEVIATION", l, v, e.at, e.acked, e.exec, e.cut>>) ELSE TRUE
     /\ nimg' = nimg + 1
-    /\ l' = l + 1 /\ UNCHANGED <<st, hist, rws>>
+    /\ l' = l + 1 /\ UNCHANGED <<st, hist, rws, wpc, sync>>
 
 \* durable again: the recovered server executes more writes (judged by Exec), is stopped, and a
 \* server restored from its directory serves exactly the state it had
@@ -185,21 +232,23 @@ TraceAgain ==
            a == AgainFold(ProjStore(e.base), e.cmds)
        IN /\ ~("err" \in DOMAIN e)
           /\ a.ok
-          /\ (a.skip \/ Norm(a.S, e.now) = Norm(ProjStore(e.st2), e.now))
-          /\ Norm(ProjStore(e.st3), e.now) = Norm(ProjStore(e.st2), e.now)
+          /\ (a.skip \/ (/\ Norm(a.S, e.now) = Norm(ProjStore(e.st2), e.now)
+                          /\ Norm(ProjStore(e.st3), e.now) = Norm(ProjStore(e.st2), e.now)))
           /\ nskip' = IF a.skip THEN nskip + 1 ELSE nskip
     /\ nimg' = nimg + 1
-    /\ l' = l + 1 /\ UNCHANGED <<st, hist, rws, dev>>
+    /\ l' = l + 1 /\ UNCHANGED <<st, hist, rws, dev, wpc, sync>>
 
 TraceStuck ==
     /\ l <= Len(Trace)
     /\ LET e == Trace[l] IN
-       \/ /\ e.ev = "image" /\ ImageVerdict(e) = "violation"
+       \/ /\ e.ev = "image" /\ ImageVerdict(e) = {"violation"}
           /\ PrintT(<<"MISMATCH-LINE", l>>)
           /\ PrintT(<<"MISMATCH-IMAGE", e.at, "acked", e.acked, "exec", e.exec, "cut", e.cut, "powerloss", e.powerloss,
                       "recs", e.recs, "pre", e.pre, "inrw", e.inrw>>)
           /\ PrintT(<<"MISMATCH-RESTORED", Got(e)>>)
-          /\ PrintT(<<"MISMATCH-FAITHFUL-MODEL", Faithful(e, TRUE)>>)
+          /\ PrintT(<<"MISMATCH-MODEL-FILES", "rewrites", rws, "lastdone", LastDone(e), "logbase", LogBase(e), "preamble", PreAt(e, TRUE),
+                      "log", Take(LoggedIn(LogBase(e), e.exec), e.recs)>>)
+          /\ PrintT(<<"MISMATCH-FAITHFUL-MODEL", Faithful(e, TRUE, FALSE)>>)
           /\ PrintT(<<"MISMATCH-EXPECTED-PREFIXES", [p \in Lo(e)..e.exec |-> Norm(hist[p + 1].S, e.now)]>>)
        \/ /\ e.ev = "cmd" /\ ~((\E D \in SUBSET CmdDevs(e) : Matches(e, D)) /\ LoggedOK(e))
           /\ PrintT(<<"MISMATCH-LINE", l>>)
@@ -208,16 +257,19 @@ TraceStuck ==
           /\ PrintT(<<"MISMATCH-LOGGED-REPLY", e.r>>)
           /\ PrintT(<<"MISMATCH-MODEL-STATE", Norm(Outcome(e, {}).S, e.now)>>)
           /\ PrintT(<<"MISMATCH-LOGGED-STATE", Norm(ProjStore(e.st), e.now)>>)
+       \/ /\ e.ev = "fop" /\ FopStep(wpc, e.op, sync)[1] = "bad"
+          /\ PrintT(<<"MISMATCH-LINE", l>>)
+          /\ PrintT(<<"MISMATCH-FOP", "writer/rewrite pc", wpc, "next file operation", e.op, "sync strategy", sync>>)
        \/ /\ e.ev = "again"
           /\ LET a == AgainFold(ProjStore(e.base), e.cmds) IN
-             ~(~("err" \in DOMAIN e) /\ a.ok /\ (a.skip \/ Norm(a.S, e.now) = Norm(ProjStore(e.st2), e.now))
-               /\ Norm(ProjStore(e.st3), e.now) = Norm(ProjStore(e.st2), e.now))
+             ~(~("err" \in DOMAIN e) /\ a.ok /\ (a.skip \/ (Norm(a.S, e.now) = Norm(ProjStore(e.st2), e.now)
+               /\ Norm(ProjStore(e.st3), e.now) = Norm(ProjStore(e.st2), e.now))))
           /\ PrintT(<<"MISMATCH-LINE", l>>)
           /\ PrintT(<<"MISMATCH-AGAIN", "after-writes", Norm(ProjStore(e.st2), e.now), "after-restart", Norm(ProjStore(e.st3), e.now)>>)
     /\ FALSE
     /\ UNCHANGED vars
 
-Next == TraceReset \/ TraceCmd \/ TraceRewrite \/ TraceOther \/ TraceImage \/ TraceAgain \/ TraceStuck
+Next == TraceReset \/ TraceCmd \/ TraceRewrite \/ TraceFop \/ TraceOther \/ TraceImage \/ TraceAgain \/ TraceStuck
 
 Spec == Init /\ [][Next]_vars
 
